@@ -23,7 +23,7 @@ import (
 var initAllow = []string{
 	load.Module, "github.com/danos/",
 	"unicode", "strconv", "strings", "bytes", "sort", "slices", "math", "regexp", "io", "time",
-	"net/url", "path", "maps", "cmp", "iter", "unique", "html", "encoding/hex", "encoding/base64",
+	"net/url", "path", "maps", "cmp", "iter", "unique", "html", "encoding/hex", "encoding/base64", "encoding/xml",
 	"bufio", "container/", "text/", "internal/itoa", "internal/stringslite", "internal/byteorder",
 }
 
@@ -219,6 +219,11 @@ func printSummary(s *explore.Summary) {
 	for _, v := range s.Violations {
 		b, _ := json.Marshal(v.Model)
 		fmt.Printf("  VIOLATION-CANDIDATE %s model=%s\n", v.ID, b)
+		if os.Getenv("GOSX_SHOW_OBSERVED") != "" {
+			for _, o := range v.Observed {
+				fmt.Printf("      engine-observed %s\n", o)
+			}
+		}
 	}
 	for k := range s.KFSeen {
 		fmt.Printf("  known-finding class seen: %s\n", k)
